@@ -238,6 +238,14 @@ for _sp in ("\\", "\n", "\r"):
         PATHS += [_sp + _mb, _mb + _sp, _mb + _sp + _mb, "a" + _sp + "b" + _mb, _sp + "dir" + _mb + _sp + _mb]
 
 
+# a double space (or `) = `) at every byte offset around the width of a hash field: the printed --tag line
+# `BLAKE3 (<path>) = <hex>` then has 64 bytes before its first double space exactly when the offset is 56
+for _k in list(range(50, 68)) + [118, 119, 120, 121, 122]:
+    PATHS += ["d" * _k + "  x", "d" * _k + ") = y"]
+PATHS += ["日本" + "e" * 50 + "  tail", "é" * 28 + "  z", "a/b/".replace("/", "_") + "f" * 52 + "  x", "\\" + "g" * 54 + "  x",
+          "h" * 55 + "\n  x"]
+
+
 def hash_field_cases():
     out = [H1, H2, H1[:63], H1 + "0", H1[:62], H1 + "00", "", "0", H1.upper(), H1[:63] + "A", H1[:63] + "g", H1[:63] + " ",
            " " + H1[:63], H1[:32] + " " + H1[33:], H1[:63] + "G", "0x" + H1[:62], H1[:63] + "\t", H1[:63] + "/", H1[:63] + ":",
